@@ -91,9 +91,13 @@ fn check(c: &Case, ctx: &Ctx) -> Outcome {
             for n in &names {
                 args.push(n);
             }
-            args.extend_from_slice(&["-o", "m"]);
+            // the output prefix may or may not carry the .skf suffix already
+            args.extend_from_slice(&["-o", if samples.len() % 2 == 0 { "m.skf" } else { "m" }]);
             let o = run_ska(ctx, &dir, &args);
             must_ok(&o, "ska merge")?;
+            if dir.join("m.skf.skf").exists() {
+                return Err(Outcome::Fail("merge -o m.skf wrote m.skf.skf".into()));
+            }
         }
         let got = nk(ctx, &dir, "m.skf")?;
         model::compare_nk(&got, &expected, k, rc, Some(k_bits_for(k))).map_err(|m| Outcome::Fail(format!("merged file vs model: {m}")))?;
